@@ -234,7 +234,13 @@ impl Settings {
             // it must be an account name the journal parser accepts
             let eqa = cfg.export.equity.equity_account.as_str();
             let valid = AccountTreeNode::from(eqa).is_ok()
-                && eqa.split(':').next().is_some_and(parser::is_valid_id);
+                && eqa.split(':').enumerate().all(|(i, part)| {
+                    if i == 0 {
+                        parser::is_valid_id(part)
+                    } else {
+                        parser::is_valid_sub_id(part)
+                    }
+                });
             if !valid {
                 let msg = format!("Invalid `equity.equity-account`: '{eqa}'");
                 return Err(msg.into());
